@@ -556,3 +556,10 @@ LEAN_TARGETS += ['OdxVerif.Proofs.CompCompuBitsMsg']
 THEOREMS += ["OdxVerif.Codec." + t for t in [
     'C02_bit_exact_nested3', 'C02_overlap_iff_nested3', 'Desc3.described', 'Desc3.foot', 'Descs3.footTop', 'descs3_encodeMessage',
     'LinLeaf.desc_wf', 'TTLeaf.desc_wf', 'DtcLeaf.desc_wf', 'Descs3.padOk_of_noSizePadding']]
+# W22 (RESERVED / NRC-CONST as constructors of the nested tier: Desc2R; tenth leaf kind A_UNICODE2STRING low-high) — appended
+LEAN_TARGETS = LEAN_TARGETS + ["OdxVerif.Props.C01Nested2R"]
+THEOREMS = THEOREMS + ["OdxVerif.Codec." + t for t in [
+    "C01_roundtrip_nested2R", "C01_roundtrip_nested2R_whole", "C01_roundtrip_nested2R_of_desc2", "C01_nrcconst_alone_not_decodable",
+    "descs2R_roundtrip_msg_cur", "Desc2R.okM", "Desc2R.decPre_of", "Descs2R.decPre_top", "Descs2R.okAllTop",
+    "Comp.ofU16LE_ok", "U16.encodeParam_eq", "U16.decodeParam_eq", "Comp.ofU16LE_val",
+    "exRes_ok", "exRes_wire", "exRes_enc", "exResOverlap_ok", "exNrcR_ok", "exU16Req_ok", "exU16Req_enc"]]
